@@ -8,7 +8,7 @@
 # translator FAILS (exit 1) rather than guess.
 import os, re, sys
 
-REPO = '/repo'
+REPO = os.environ.get('UV_REPO', '/repo')   # override only for experiments on scratch worktrees
 ROOT = os.path.dirname(os.path.dirname(os.path.abspath(__file__)))
 GEN = os.path.join(ROOT, 'coq', 'gen')
 
@@ -370,6 +370,208 @@ def emit_panics():
             'Definition panic_sites : list (string * string * string) :=\n  [\n%s\n  ].\n' % ';\n'.join(rows))
 
 
+
+# ---------------------------------------------------------------- lock / network call sites (C12)
+LOCKERS = ('with_config', 'with_config_mut', 'with_state', 'with_mut_state')
+UPD_LOCKER = 'with_updater_thread_lock'
+NET_FREE = ('send_patch_event', 'download_to_path', 'patch_check_request_default', 'download_file_default', 'report_event_default')
+
+
+def blank_literals(src):
+    """one-pass lexer: comments removed, string / raw-string / char literals blanked"""
+    out = []
+    i, n = 0, len(src)
+    while i < n:
+        c = src[i]
+        two = src[i:i + 2]
+        if two == '//':
+            j = src.find('\n', i)
+            i = n if j == -1 else j
+        elif two == '/*':
+            depth, i = 1, i + 2
+            while i < n and depth:
+                if src[i:i + 2] == '/*':
+                    depth += 1; i += 2
+                elif src[i:i + 2] == '*/':
+                    depth -= 1; i += 2
+                else:
+                    i += 1
+        elif c == 'r' and re.match(r'r#*"', src[i:]) and (i == 0 or not (src[i - 1].isalnum() or src[i - 1] == '_')):
+            m = re.match(r'r(#*)"', src[i:])
+            end = src.find('"' + m.group(1), i + m.end())
+            out.append('""')
+            i = n if end == -1 else end + 1 + len(m.group(1))
+        elif c == '"':
+            i += 1
+            while i < n and src[i] != '"':
+                i += 2 if src[i] == '\\' else 1
+            out.append('""')
+            i += 1
+        elif c == "'":
+            m = re.match(r"'(?:\\(?:x[0-9a-fA-F]{2}|u\{[0-9a-fA-F]+\}|.)|[^'\\])'", src[i:])
+            if m:
+                out.append("' '")
+                i += m.end()
+            else:           # a lifetime
+                out.append(c)
+                i += 1
+        else:
+            out.append(c)
+            i += 1
+    return ''.join(out)
+
+
+def match_close(src, i, open_c, close_c):
+    depth = 0
+    while i < len(src):
+        if src[i] == open_c:
+            depth += 1
+        elif src[i] == close_c:
+            depth -= 1
+            if depth == 0:
+                return i
+        i += 1
+    raise Bad('unbalanced %s' % open_c)
+
+
+def functions_of(src):
+    """[(name, is_method, body_start, body_end)] for every fn with a body"""
+    out = []
+    for m in re.finditer(r'\bfn\s+(\w+)', src):
+        k = m.end()
+        # generics
+        while k < len(src) and src[k].isspace():
+            k += 1
+        if k < len(src) and src[k] == '<':
+            depth = 0
+            while k < len(src):
+                if src[k] == '<':
+                    depth += 1
+                elif src[k] == '>' and src[k - 1] != '-':
+                    depth -= 1
+                    if depth == 0:
+                        k += 1
+                        break
+                k += 1
+        po = src.find('(', k)
+        if po == -1:
+            continue
+        pc = match_close(src, po, '(', ')')
+        params = src[po + 1:pc]
+        is_method = bool(re.match(r'\s*(&\s*(\'\w+\s+)?)?(mut\s+)?self\b', params))
+        # body: first '{' before the next ';' at this level
+        j = pc + 1
+        brace = None
+        while j < len(src):
+            if src[j] == '{':
+                brace = j
+                break
+            if src[j] == ';':
+                break
+            j += 1
+        if brace is None:
+            continue
+        end = match_close(src, brace, '{', '}')
+        out.append((m.group(1), is_method, brace, end))
+    return out
+
+
+def emit_locks():
+    base = os.path.join(REPO, 'library/src')
+    files = []
+    for dp, _, fs in os.walk(base):
+        for f in fs:
+            if f.endswith('.rs') and f not in ('android.rs', 'test_utils.rs', 'verif.rs'):
+                files.append(os.path.join(dp, f))
+    fns = []      # (file, name, is_method)
+    sites = []    # (caller, callee, under_cfg, under_upd)
+    for path in sorted(files):
+        rel = os.path.relpath(path, base)
+        src = blank_literals(strip_tests(open(path).read()))
+        # feature-gated instrumentation lines are not part of the shipped code
+        src = re.sub(r'#\[cfg\(feature = ""\)\]\s*[^;]*;', '', src)
+        fl = functions_of(src)
+        for name, is_m, b0, b1 in fl:
+            # skip functions nested in another function's body (closures are not `fn`)
+            fns.append((rel, name, is_m))
+            body = src[b0:b1 + 1]
+            # aliases of network callbacks: names bound by a `let` whose initialiser mentions network_hooks
+            aliases = set()
+            for lm in re.finditer(r'\blet\s+(\([^)]*\)|\w+)\s*(?::[^=;]*)?=', body):
+                st = lm.end()
+                depth = 0
+                j = st
+                while j < len(body):
+                    c = body[j]
+                    if c in '({[':
+                        depth += 1
+                    elif c in ')}]':
+                        depth -= 1
+                    elif c == ';' and depth == 0:
+                        break
+                    j += 1
+                if 'network_hooks' in body[st:j]:
+                    for nm in re.findall(r'\w+', lm.group(1)):
+                        if nm not in ('mut', 'ref'):
+                            aliases.add(nm)
+            spans = []   # (open, close, kind)
+            calls = []   # (pos, callee)
+            for cm in re.finditer(r'(\.|::)?\s*\b([A-Za-z_]\w*)\s*(\()', body):
+                pre, name2 = cm.group(1), cm.group(2)
+                if name2 in ('if', 'while', 'match', 'for', 'return', 'fn', 'Some', 'Ok', 'Err', 'None', 'loop', 'move', 'in', 'as', 'let', 'mut', 'ref'):
+                    continue
+                po = cm.start(3)
+                pc = match_close(body, po, '(', ')')
+                if pre == '.':
+                    if name2.endswith('_fn') or name2.endswith('_hook'):
+                        callee = 'NET:' + name2
+                    else:
+                        callee = '.' + name2
+                else:
+                    callee = name2
+                    if name2 in aliases or name2.endswith('_fn') or name2.endswith('_hook'):
+                        callee = 'NET:' + name2
+                    elif name2 in NET_FREE:
+                        callee = 'NET:' + name2
+                if name2 in LOCKERS and pre != '.':
+                    spans.append((po, pc, 'cfg'))
+                elif name2 == UPD_LOCKER and pre != '.':
+                    spans.append((po, pc, 'upd'))
+                elif name2 == 'spawn':
+                    spans.append((po, pc, 'spawn'))
+                    callee = 'SPAWN'
+                calls.append((cm.start(2), callee))
+            # `(config.network_hooks.x)(...)`: a call through the field itself
+            for cm in re.finditer(r'network_hooks\s*\.\s*(\w+)\s*\)\s*\(', body):
+                calls.append((cm.start(1), 'NET:' + cm.group(1)))
+            for pos, callee in calls:
+                cfg = upd = spawned = False
+                for (a, b, k) in sorted(spans):
+                    if a < pos <= b:   # strictly inside the argument list
+                        if k == 'spawn':
+                            cfg = upd = False
+                            spawned = True
+                        elif k == 'cfg':
+                            cfg = True
+                        else:
+                            upd = True
+                sites.append(('%s%s' % ('.' if is_m else '', name), callee, cfg, upd, spawned))
+    names = sorted(set(('.' if m else '') + n for _, n, m in fns))
+    b = lambda x: 'true' if x else 'false'
+    rows = ['  ("%s", "%s", %s, %s, %s)' % (c, d, b(x), b(y), b(z)) for c, d, x, y, z in sites]
+    if not any(r[1].startswith('NET:') for r in sites) or not any(r[1] in LOCKERS for r in sites):
+        raise Bad('no network call or no lock acquisition found in library/src (source shape changed?)')
+    return ('(* GENERATED by tools/translate.py from /repo — do not edit. *)\n'
+            'From Coq Require Import List String Bool.\nImport ListNotations.\nOpen Scope string_scope.\n\n'
+            '(* every function with a body in non-test library code ("." prefix = takes self) *)\n'
+            'Definition gen_fns : list string :=\n  [%s].\n\n'
+            '(* (caller, callee, lexically inside a config-lock closure, lexically inside the update-lock closure,\n'
+            '   lexically inside a thread::spawn closure) for every call in those functions; "NET:x" = call of a network\n'
+            '   callback or of a function that performs HTTP itself, "SPAWN" = thread::spawn (its closure runs on another\n'
+            '   thread: the lock flags are reset inside it) *)\n'
+            'Definition gen_calls : list (string * string * bool * bool * bool) :=\n  [\n%s\n  ].\n'
+            % ('; '.join('"%s"' % n for n in names), ';\n'.join(rows)))
+
 # ---------------------------------------------------------------- constants
 def emit_consts():
     cfg = open(os.path.join(REPO, 'library/src/config.rs')).read()
@@ -415,6 +617,7 @@ def main():
         write_if_changed(os.path.join(GEN, 'AbiTables.v'), emit_abi())
         write_if_changed(os.path.join(GEN, 'PanicSites.v'), emit_panics())
         write_if_changed(os.path.join(GEN, 'Consts.v'), emit_consts())
+        write_if_changed(os.path.join(GEN, 'LockSites.v'), emit_locks())
     except Bad as e:
         print('translate.py: source shape not recognised: %s' % e)
         sys.exit(1)
